@@ -33,7 +33,7 @@ def models():
     return out
 
 
-SHAPES = ('symmetric', 'skewed', 'bimodal', 'bounded', 'heavy', 'five-values', 'near-constant', 'shifted-large')
+SHAPES = ('symmetric', 'skewed', 'bimodal', 'bounded', 'heavy', 'five-values', 'near-constant', 'shifted-large', 'offset-tiny-spread')
 
 
 def data(shape, n, rs):
@@ -53,6 +53,8 @@ def data(shape, n, rs):
         return 5.0 + 1e-3 * rs.normal(size=n)
     if shape == 'shifted-large':
         return 1.0e4 + rs.gamma(3.0, 50.0, n)
+    if shape == 'offset-tiny-spread':       # spread 1e-7 of the magnitude (timestamps, large identifiers)
+        return 1.0e7 + rs.uniform(0.0, 1.0, n)
     raise KeyError(shape)
 
 
@@ -91,7 +93,12 @@ def _observe(job):
         try:        # scipy's generic optimiser sometimes collapses (e.g. Beta with scale 1e-29): such a fit is a point mass, not this check's subject
             w = np.asarray(m.percent_point(np.array([0.001, 0.999])), dtype=float)
             if np.isfinite(w).all() and (w[1] - w[0]) < 1e-6 * span:
+                if type(getattr(m, '_instance', None) or m).__name__ not in ('BetaUnivariate', 'GammaUnivariate', 'LogLaplace', 'StudentTUnivariate'):
+                    rec['err'] = 'point-mass-fitted-to-non-constant-data'      # closed-form / own-optimiser families and the KDE have no such excuse
+                    raise RuntimeError('point mass')
                 return {'skip': True, 'model': mname, 'shape': shape, 'n': n, 'why': 'degenerate fit (width %.3g of a data range %.3g)' % (w[1] - w[0], span)}
+        except RuntimeError:
+            raise
         except Exception:
             pass
         centre = float(np.median(X))
@@ -187,7 +194,10 @@ def _observe(job):
                         THi.append(min(t_out / qq, 1e3))      # the side towards the centre must reach q
             LP = np.asarray(m.log_probability_density(grid.copy()), dtype=float)
             pos = Pd > 1e-300
-            LPlog = np.log(np.where(pos, Pd, 1.0))
+            # where the density is zero (outside a bounded support, or underflow) the log density must be -inf or below the
+            # underflow range of doubles: both sides are cut at -690 (= log 1e-300)
+            LPlog = np.where(pos, np.log(np.where(pos, Pd, 1.0)), -690.0)
+            LP = np.where(pos | np.isnan(LP), LP, np.maximum(LP, -690.0))
         pmax = float(np.max(np.abs(Pd[np.isfinite(Pd)]))) if np.isfinite(Pd).any() else 1.0
         ps = min(10.0 ** np.floor(np.log10(1.5e9 / max(pmax, 1e-12))), 1e9)
         Fall = np.concatenate([[Ffar[1], Ffar[0]], F, [Ffar[2], Ffar[3]]])       # -inf, far left, grid, far right, +inf
@@ -197,11 +207,12 @@ def _observe(job):
                     'Q': fxq(Q).tolist(), 'XQ': fxx(XQ, centre, span).tolist(), 'FM': fxq(FM).tolist(), 'FP': fxq(FP).tolist(),
                     'TLo': O.fx(np.array(TLo, dtype=float), 1000000).tolist(), 'THi': O.fx(np.array(THi, dtype=float), 1000000).tolist(),
                     'XB': fxx(XB, centre, span).tolist(), 'XBack': fxx(XBack, centre, span).tolist(), 'xtol': 10,
-                    'LP': O.fx(np.where(pos, LP, 0.0), LS).tolist(), 'LPlog': O.fx(LPlog, LS).tolist()})
+                    'LP': O.fx(LP, LS).tolist(), 'LPlog': O.fx(LPlog, LS).tolist()})
     except Exception as ex:
         import traceback
-        rec['err'] = 'raised-' + type(ex).__name__
-        rec['trace'] = traceback.format_exc(limit=-2)[-400:]
+        if not rec['err']:
+            rec['err'] = 'raised-' + type(ex).__name__
+            rec['trace'] = traceback.format_exc(limit=-2)[-400:]
         for k_ in ('F', 'P', 'I6', 'I3', 'DF', 'Q', 'XQ', 'FM', 'FP', 'XB', 'XBack', 'LP', 'LPlog', 'TLo', 'THi'):
             rec.setdefault(k_, [])
         rec.setdefault('Flo', 0)
